@@ -89,14 +89,17 @@ ISOLATED_DOC = ("ISOLATED: the body of every path runs in a FRESH interpreter (p
                 "behind; state left by the paths explored before (module tables, caches, mutable default arguments) therefore cannot leak into the verdict")
 
 
-def _isolated_call(module, prop, oid, fixed):
+def _isolated_call(module, prop, oid, fixed, timeout=600):
     """run the obligation body for the concrete arguments `fixed` in a fresh interpreter; returns its diagnostic string"""
     import json
     import subprocess
     import sys
 
-    env = dict(_os.environ, CHX_REPLAY="1")
-    r = subprocess.run([sys.executable, "-m", "chx.replay", module, prop, oid, json.dumps(fixed)], capture_output=True, text=True, env=env, timeout=600)
+    env = dict(_os.environ, CHX_REPLAY="1", CHX_ISOLATED_CHILD="1")
+    try:
+        r = subprocess.run([sys.executable, "-m", "chx.replay", module, prop, oid, json.dumps(fixed)], capture_output=True, text=True, env=env, timeout=timeout)
+    except subprocess.TimeoutExpired:
+        return "HANG: the call did not return within %d s in a fresh interpreter" % timeout
     for line in r.stdout.splitlines():
         if line.startswith("REPLAY "):
             return json.loads(line[7:]).get("diag", "")
@@ -125,8 +128,8 @@ def _enumerated(fn, args, isolated=None):
                 raise TypeError("enumerated obligations take int/bool selectors only")
         from chx.shim import REPLAYING
 
-        if isolated and not REPLAYING():
-            return untraced(lambda: _isolated_call(isolated[0], isolated[1], isolated[2], fixed))
+        if isolated and not _os.environ.get("CHX_ISOLATED_CHILD"):  # under the engine AND in the driver's replay: a fresh interpreter under the time budget
+            return untraced(lambda: _isolated_call(isolated[0], isolated[1], isolated[2], fixed, isolated[3]))
         return untraced(lambda: fn(**fixed))
 
     body.__name__ = getattr(fn, "__name__", "body")
@@ -140,7 +143,7 @@ def ob(prop, oid, args, enum=False, isolated=False, **kw):
     def deco(fn):
         if enum:
             kw["assumes"] = list(kw.get("assumes", [])) + [ENUM_DOC] + ([ISOLATED_DOC] if isolated else [])
-        o = Obligation(prop=prop, oid=oid, fn=_enumerated(fn, dict(args), (fn.__module__, prop, oid) if isolated else None) if enum else fn, args=dict(args), module=fn.__module__, **kw)
+        o = Obligation(prop=prop, oid=oid, fn=_enumerated(fn, dict(args), (fn.__module__, prop, oid, 600 if isolated is True else int(isolated)) if isolated else None) if enum else fn, args=dict(args), module=fn.__module__, **kw)
         key = (prop, oid)
         if key in REGISTRY:
             raise RuntimeError("duplicate obligation %s.%s" % key)
